@@ -234,6 +234,22 @@ func (g *Gates) Release(point string) bool {
 	return false
 }
 
+// ReleaseID releases the oldest goroutine parked at point on behalf of the given session id.
+func (g *Gates) ReleaseID(point, id string) bool {
+	g.mu.Lock()
+	for i, p := range g.parked {
+		if p.point == point && idString(p.id) == id {
+			g.parked = append(g.parked[:i], g.parked[i+1:]...)
+			g.mu.Unlock()
+			g.rec.Log("gate.release", "point", point, "id", idString(p.id), "g", p.n)
+			close(p.ch)
+			return true
+		}
+	}
+	g.mu.Unlock()
+	return false
+}
+
 // ReleaseNth releases the n-th (0-based, park order) goroutine parked at point.
 func (g *Gates) ReleaseNth(point string, n int) bool {
 	g.mu.Lock()
